@@ -385,6 +385,13 @@ def run_factories(acc):
                     acc.exception(e, case, fname)
 
 
+def run_in_flight(acc):
+    """Two passes in flight on one copying instance (C20's family): neither pass touches its input."""
+    from .c20 import check_same_instance_in_flight
+
+    check_same_instance_in_flight(acc, {"RemoveEnclosingMiddleware": mw.RemoveEnclosingMiddleware, "MonthLongStringMiddleware": mw.MonthLongStringMiddleware, "NormalizeFieldKeys": mw.NormalizeFieldKeys, "SortFieldsAlphabeticallyMiddleware": mw.SortFieldsAlphabeticallyMiddleware})
+
+
 def run_write(li, acc):
     for spec in FORMATS:
         for stack_kw in ({}, {"prepend_middleware": []}):
@@ -404,6 +411,12 @@ def run_write(li, acc):
                 except Exception:
                     pass
                 t2 = bibtexparser.write_string(lib, bibtex_format=fmt, **stack_kw)
+                # the same blocks handed over in a temporary library that nobody else refers to (a selection written on
+                # the fly): the blocks are the caller's all the same
+                from bibtexparser.library import Library as _L
+
+                bibtexparser.write_string(_L(list(lib.blocks)), bibtex_format=fmt, **stack_kw)
+                t3 = bibtexparser.write_string(lib, bibtex_format=fmt, **stack_kw)
             except Exception as e:
                 acc.raised["write:" + type(e).__name__] += 1
                 continue
@@ -412,8 +425,8 @@ def run_write(li, acc):
                 acc.violation({"oracle": "write_leaves_library"}, {"case": case, "observed": "library changed", "expected": "unchanged"})
             elif canon(fmt) != fsnap:
                 acc.violation({"oracle": "write_leaves_format"}, {"case": case, "observed": repr(vars(fmt)), "expected": list(spec)})
-            elif t1 != t2:
-                acc.violation({"oracle": "writing_twice_gives_identical_text"}, {"case": case, "observed": t2, "expected": t1})
+            elif t1 != t2 or t1 != t3:
+                acc.violation({"oracle": "writing_twice_gives_identical_text", "after": "a plain second write" if t1 != t2 else "a write of the same blocks in a temporary library"}, {"case": case, "observed": t2 if t1 != t2 else t3, "expected": t1})
 
 
 def run_shard(shard, tier, acc):
@@ -425,6 +438,7 @@ def run_shard(shard, tier, acc):
         return
     if shard[0] == "factories":
         run_factories(acc)
+        run_in_flight(acc)
         return
     if shard[0] == "spelled":
         run_spelled(shard[1], acc)
@@ -459,7 +473,9 @@ def run_shard(shard, tier, acc):
 
 
 def replay(case, acc):
-    if "factory" in case:
+    if "same_instance_in_flight" in case:
+        run_in_flight(acc)
+    elif "factory" in case:
         run_factories(acc)
     elif "spelled_library" in case:
         run_spelled(case["spelled_library"], acc)
